@@ -75,56 +75,87 @@ fn fold8(x: u64) -> u8 {
     v as u8
 }
 
-// Hn, general shape.  mode: 0 = full (Q = mix of C), otherwise the message
-// hash (m3 == D_MESG) returns Q = [fill; n] with Q[QPOS] a digest of all inputs
-// (fill = mode as u8); mode 0xFF additionally fixes Q[QPOS] = 0xFF.
+// Hn, general shape.
+//  * chain step / secret x[i] (m4 one byte, m5 n bytes): the n input bytes are
+//    carried over, byte 0 absorbs the counter byte, both bytes of u16str(i),
+//    the two outer bytes of u32str(q) and the two outer bytes of I, then is
+//    rotated (order-sensitive).  Kept minimal on purpose: CBMC executes this
+//    up to 2 * 255 * p times per harness.
+//  * message hash (m4 = C, n bytes; m5 = message): mode 0x100 = "free": Q is C
+//    with lane 0 absorbing all other inputs (every coefficient symbolic);
+//    mode 0x00..0xFF = Q is the constant byte `mode` everywhere; mode 0x1xx with
+//    xx != 0: constant xx, except Q[QPOS] = digest of all inputs (one symbolic
+//    coefficient plus the symbolic checksum digits it induces).
 const QPOS: usize = 5;
+const MODE_FREE: u16 = 0x100;
 
-fn hn_core(mode: u16, m1: &[u8], m2: &[u8], m3: &[u8], m4: &[u8], m5: &[u8]) -> [u8; n] {
-    let d = dig3(m1, m2, m3);
-    if m5.len() == n && m4.len() == 1 {
-        // chain step / secret x[i]:  lane 0 absorbs address, counter and itself
-        let mut l = lanes_n(m5);
-        l[0] = (l[0] ^ d ^ ((m4[0] as u64) << 48)).rotate_left(7);
-        return unsafe { core::mem::transmute::<[u64; LN], [u8; n]>(l) };
-    }
+// message-hash part (m4 = C, m5 = message) and fallback
+fn hn_msg(mode: u16, m1: &[u8], m2: &[u8], m3: &[u8], m4: &[u8], m5: &[u8]) -> [u8; n] {
     if m4.len() == n {
-        // message hash: m4 = C, m5 = message
         let mut l = lanes_n(m4);
-        let e = d ^ digs(m5).rotate_left(23);
-        if mode == 0 {
+        let e = dig3(m1, m2, m3) ^ digs(m5).rotate_left(23);
+        if mode == MODE_FREE {
             l[0] = (l[0] ^ e).rotate_left(7);
             return unsafe { core::mem::transmute::<[u64; LN], [u8; n]>(l) };
         }
         let mut r = [mode as u8; n];
-        if mode != 0xFF {
+        if mode > 0xFF {
             r[QPOS] = fold8(l[0] ^ l[LN - 1].rotate_left(3) ^ e);
         }
         return r;
     }
     // not an RFC 8554 call shape
     let mut r = [0xEEu8; n];
-    r[0] = fold8(d ^ digs(m4) ^ digs(m5).rotate_left(5));
+    r[0] = fold8(dig3(m1, m2, m3) ^ digs(m4) ^ digs(m5).rotate_left(5));
     r
 }
 
-fn hn_full(m1: &[u8], m2: &[u8], m3: &[u8], m4: &[u8], m5: &[u8]) -> [u8; n] {
-    hn_core(0, m1, m2, m3, m4, m5)
+// the constant absorbed by every step of one Winternitz chain (see def_hn)
+fn chain_const(m1: &[u8], m2: &[u8], m3: &[u8]) -> u8 {
+    m3[1] ^ (m3[0] << 3) ^ m2[3] ^ (m2[0] << 5) ^ m1[0] ^ (m1[15] << 2)
 }
 
-// message hash with all coefficients 1 except one symbolic byte: cheap signing chains
-fn hn_lo(m1: &[u8], m2: &[u8], m3: &[u8], m4: &[u8], m5: &[u8]) -> [u8; n] {
-    hn_core(0x01, m1, m2, m3, m4, m5)
+macro_rules! def_hn {
+    ($name:ident, $mode:expr) => {
+        fn $name(m1: &[u8], m2: &[u8], m3: &[u8], m4: &[u8], m5: &[u8]) -> [u8; n] {
+            if m5.len() == n && m4.len() == 1 && m3.len() == 2 && m2.len() == 4 && m1.len() == 16 {
+                let mut r: [u8; n] = unsafe { *(m5.as_ptr() as *const [u8; n]) };
+                let x = r[0] ^ m4[0] ^ chain_const(m1, m2, m3);
+                r[0] = (x << 1) | (x >> 7);
+                return r;
+            }
+            hn_msg($mode, m1, m2, m3, m4, m5)
+        }
+    };
 }
 
-// message hash with all coefficients 0xFE except one symbolic byte: cheap verification chains
-fn hn_hi(m1: &[u8], m2: &[u8], m3: &[u8], m4: &[u8], m5: &[u8]) -> [u8; n] {
-    hn_core(0xFE, m1, m2, m3, m4, m5)
-}
+// every coefficient symbolic (unaffordable in CBMC for whole signatures; kept for experiments)
+def_hn!(hn_free, MODE_FREE);
+// Q = 00..00: cheapest signing (only the two checksum chains run: 31 + 224 steps)
+def_hn!(hn_00, 0x00);
+// Q = FF..FF: cheapest verification (only the two checksum chains run: 255 + 255 steps)
+def_hn!(hn_ff, 0xFF);
+// Q = 01..01 except one symbolic byte (signing side, thorough tier)
+def_hn!(hn_lo, 0x101);
+// Q = FE..FE except one symbolic byte (verification side, thorough tier)
+def_hn!(hn_hi, 0x1FE);
 
-// message hash constant 0xFF..FF (verification: only the two checksum chains run)
-fn hn_ff(m1: &[u8], m2: &[u8], m3: &[u8], m4: &[u8], m5: &[u8]) -> [u8; n] {
-    hn_core(0xFF, m1, m2, m3, m4, m5)
+// Under Kani ref_chain (below) is replaced by this closed form of
+// "ref_chain with Hn := one of the stand-ins above": only byte 0 evolves, by
+// x -> rotl1(x ^ j ^ chain_const).  verif_lms_chain_fast_eq decides that the two
+// agree, so that the reference side of a chain costs scalar steps only.
+fn ref_chain_fast(id: &[u8; 16], q: u32, i: usize, from: usize, to: usize, start: &[u8; n]) -> [u8; n] {
+    let c = chain_const(id, &ref_u32str(q), &ref_u16str(i as u16));
+    let mut r = *start;
+    let mut x = r[0];
+    let mut j = from;
+    while j < to {
+        let y = x ^ (j as u8) ^ c;
+        x = (y << 1) | (y >> 7);
+        j += 1;
+    }
+    r[0] = x;
+    r
 }
 
 fn hm_lean(m1: &[u8], m2: &[u8], m3: &[u8], m4: &[u8], m5: &[u8]) -> [u8; m] {
@@ -435,7 +466,17 @@ fn ref_verify(id: &[u8; 16], root: &[u8; m], sig: &[u8], msg: &[u8]) -> bool {
 // helpers
 
 fn mk_key(leaf: u32) -> PrivateKey {
-    PrivateKey { I: kani::any(), SEED: kani::any(), current_leaf: leaf, T: kani::any() }
+    // one nondeterministic byte string for the whole tree (kani::any() of the
+    // nested array would build it node by node)
+    let flat: [u8; NNODE * m] = kani::any();
+    let t = unsafe { core::mem::transmute::<[u8; NNODE * m], [[u8; m]; 1usize << (h + 1)]>(flat) };
+    PrivateKey { I: kani::any(), SEED: kani::any(), current_leaf: leaf, T: t }
+}
+
+// key for the harnesses about ots_sign, which takes the key by value and never
+// reads T or current_leaf: T constant (keeps the 2 KB tree out of the formula)
+fn mk_key_notree() -> PrivateKey {
+    PrivateKey { I: kani::any(), SEED: kani::any(), current_leaf: kani::any(), T: [[0u8; m]; 1usize << (h + 1)] }
 }
 
 // An honestly generated (public key, signature) pair for leaf q % 2^h: the tree
@@ -538,14 +579,12 @@ fn verif_lms_params_coef() {
 // ------------------------------------------------------------------------
 // H1: sign, state machine, from an ARBITRARY key state (one-step induction)
 
-#[kani::proof]
-#[kani::unwind(66)]
-#[kani::stub(PrivateKey::ots_sign, ots_sign_pool)]
-fn verif_lms_sign_state() {
+fn sign_state_body(anytree: bool) {
     let pool: [u8; ots_siglen] = kani::any();
     unsafe { OTS_POOL = pool; }
     let old: u32 = kani::any();
-    let mut sk = mk_key(old);
+    let mut sk = if anytree { mk_key(old) } else { mk_key_notree() };
+    sk.current_leaf = old;
     let sk0 = sk;
     let msg: [u8; 3] = kani::any();
     let tape: [u8; n] = kani::any();
@@ -583,9 +622,13 @@ fn verif_lms_sign_state() {
             // bytes 4 .. 4+ots_siglen are ots_sign(q = old, msg) with the same randomness
             let mut rng2 = VRng::new(tape, core::ptr::null());
             let exp = sk0.ots_sign(&mut rng2, old, &msg);
-            let k: usize = kani::any();
-            kani::assume(k < EXP_OTS_SIGLEN);
-            assert!(sig[4 + k] == exp[k]);
+            let mut k = 0usize;
+            let mut d = 0u8;
+            while k < EXP_OTS_SIGLEN {
+                d |= sig[4 + k] ^ exp[k];
+                k += 1;
+            }
+            assert!(d == 0);
             // LMS type word
             assert!(ref_strtou32(&sig, 4 + EXP_OTS_SIGLEN) == EXP_LMS_TYPE);
             kani::cover!(old == 0);
@@ -594,10 +637,27 @@ fn verif_lms_sign_state() {
     }
 }
 
+// arbitrary tree: the symbolic authentication-path copy costs CBMC ~15M clauses
+#[kani::proof]
+#[kani::unwind(1126)] // ots_siglen + 2 (byte-wise comparison of the embedded LM-OTS signature)
+#[kani::stub(PrivateKey::ots_sign, ots_sign_pool)]
+fn verif_lms_sign_state_anytree() {
+    sign_state_body(true);
+}
+
+// constant (zero) tree: same claims, cheap; the authentication path for an
+// arbitrary tree is decided per leaf by verif_lms_sign_path_*
+#[kani::proof]
+#[kani::unwind(1126)]
+#[kani::stub(PrivateKey::ots_sign, ots_sign_pool)]
+fn verif_lms_sign_state_tree0() {
+    sign_state_body(false);
+}
+
 // ------------------------------------------------------------------------
 // H2: sign, authentication path, every leaf (concrete index, arbitrary tree)
 
-fn sign_path_range(lo: u32, hi: u32) {
+fn sign_path_leaves(leaves: &[u32]) {
     let pool: [u8; ots_siglen] = kani::any();
     unsafe { OTS_POOL = pool; }
     let base = mk_key(0);
@@ -605,17 +665,19 @@ fn sign_path_range(lo: u32, hi: u32) {
     let tape: [u8; n] = kani::any();
     let b: usize = kani::any();
     kani::assume(b < EXP_M);
-    let mut q = lo;
-    while q < hi {
+    let mut t = 0usize;
+    while t < leaves.len() {
+        let q = leaves[t];
         let mut sk = base;
         sk.current_leaf = q;
-        let mut rng = VRng::new(tape, core::ptr::null());
+        let mut rng = VRng::new(tape, core::ptr::addr_of!(sk.current_leaf));
         match sk.sign(&mut rng, &msg) {
             None => {
                 assert!(false);
             }
             Some(sig) => {
                 assert!(sk.current_leaf == q + 1);
+                assert!(rng.calls == 1 && rng.seen == q + 1);
                 assert!(ref_strtou32(&sig, 0) == q);
                 assert!(ref_strtou32(&sig, 4 + EXP_OTS_SIGLEN) == EXP_LMS_TYPE);
                 // RFC 8554 section 5.4.1: path[i] = T[(node_num / 2^i) xor 1], node_num = 2^h + q
@@ -623,21 +685,33 @@ fn sign_path_range(lo: u32, hi: u32) {
                 let mut i = 0usize;
                 while i < EXP_H {
                     let sib = ((node >> i) ^ 1) as usize;
-                    assert!(sig[8 + EXP_OTS_SIGLEN + i * EXP_M + b] == base.T[sib][b]);
+                    let o = 8 + EXP_OTS_SIGLEN + i * EXP_M;
+                    let mut row = [0u8; m];
+                    row.copy_from_slice(&sig[o..(o + EXP_M)]);
+                    assert!(row[b] == base.T[sib][b]);
                     i += 1;
                 }
-                kani::cover!(q == hi - 1 && sig[EXP_SIGLEN - 1] == 0x33);
+                kani::cover!(t == leaves.len() - 1 && sig[EXP_SIGLEN - 1] == 0x33);
             }
         }
-        q += 1;
+        t += 1;
     }
+}
+
+// quick: both ends, both parities at every level (10 = 01010b, 21 = 10101b)
+#[kani::proof]
+#[kani::unwind(66)]
+#[kani::stub(PrivateKey::ots_sign, ots_sign_pool)]
+fn verif_lms_sign_path_q8() {
+    sign_path_leaves(&[0, 1, 2, 10, 21, 29, 30, 31]);
 }
 
 #[kani::proof]
 #[kani::unwind(66)]
 #[kani::stub(PrivateKey::ots_sign, ots_sign_pool)]
 fn verif_lms_sign_path_all() {
-    sign_path_range(0, NLEAF);
+    sign_path_leaves(&[0, 1, 2, 3, 4, 5, 6, 7, 8, 9, 10, 11, 12, 13, 14, 15, 16, 17, 18, 19, 20, 21, 22, 23,
+        24, 25, 26, 27, 28, 29, 30, 31]);
 }
 
 // ------------------------------------------------------------------------
@@ -645,7 +719,7 @@ fn verif_lms_sign_path_all() {
 
 fn ots_sign_vs_ref() {
     let q: u32 = kani::any();
-    let sk = mk_key(kani::any());
+    let sk = mk_key_notree();
     let msg: [u8; 3] = kani::any();
     let tape: [u8; n] = kani::any();
     let mut rng = VRng::new(tape, core::ptr::null());
@@ -662,16 +736,74 @@ fn ots_sign_vs_ref() {
 
 #[kani::proof]
 #[kani::unwind(256)] // Winternitz chain: at most 2^w - 1 = 255 steps
+#[kani::stub(Hn, hn_00)]
+#[kani::stub(ref_chain, ref_chain_fast)]
+fn verif_lms_ots_sign_ref_c00() {
+    ots_sign_vs_ref();
+}
+
+#[kani::proof]
+#[kani::unwind(256)]
 #[kani::stub(Hn, hn_lo)]
+#[kani::stub(ref_chain, ref_chain_fast)]
 fn verif_lms_ots_sign_ref_q1() {
     ots_sign_vs_ref();
 }
 
 #[kani::proof]
 #[kani::unwind(256)]
-#[kani::stub(Hn, hn_full)]
-fn verif_lms_ots_sign_ref_full() {
+#[kani::stub(Hn, hn_free)]
+#[kani::stub(ref_chain, ref_chain_fast)]
+fn verif_lms_ots_sign_ref_free() {
     ots_sign_vs_ref();
+}
+
+// machinery check: the closed form used for the reference side equals the
+// reference chain run with the stand-in hash
+fn chain_eq_case(id: &[u8; 16], q: u32, i: usize, from: usize, to: usize, start: &[u8; n], k: usize) {
+    let a = ref_chain(id, q, i, from, to, start);
+    let b = ref_chain_fast(id, q, i, from, to, start);
+    assert!(a[k] == b[k]);
+}
+
+#[kani::proof]
+#[kani::unwind(256)]
+#[kani::stub(Hn, hn_ff)]
+fn verif_lms_chain_fast_eq() {
+    let id: [u8; 16] = kani::any();
+    let q: u32 = kani::any();
+    let i: usize = kani::any();
+    kani::assume(i < EXP_P);
+    let start: [u8; n] = kani::any();
+    let k: usize = kani::any();
+    kani::assume(k < EXP_N);
+    // the ranges that occur with Q = 00..00 (signing) and Q = FF..FF (verification)
+    chain_eq_case(&id, q, i, 0, 255, &start, k);
+    chain_eq_case(&id, q, i, 0, 31, &start, k);
+    chain_eq_case(&id, q, i, 255, 255, &start, k);
+    chain_eq_case(&id, q, i, 0, 0, &start, k);
+    kani::cover!(k == 0 && start[0] == 0x42);
+}
+
+// same, chain entered / left at a symbolic point (thorough tier)
+#[kani::proof]
+#[kani::unwind(256)]
+#[kani::stub(Hn, hn_ff)]
+fn verif_lms_chain_fast_eq_sym() {
+    let id: [u8; 16] = kani::any();
+    let q: u32 = kani::any();
+    let i: usize = kani::any();
+    kani::assume(i < EXP_P);
+    let start: [u8; n] = kani::any();
+    let k: usize = kani::any();
+    kani::assume(k < EXP_N);
+    let from: usize = kani::any();
+    kani::assume(from <= 255);
+    chain_eq_case(&id, q, i, from, 255, &start, k);
+    chain_eq_case(&id, q, i, 0, from, &start, k);
+    kani::cover!(from == 0 && k == 0);
+    kani::cover!(from == 255 && k == 0);
+    kani::cover!(from == 100 && k == 0);
 }
 
 // ------------------------------------------------------------------------
@@ -703,23 +835,37 @@ fn verify_vs_ref() {
 
 #[kani::proof]
 #[kani::unwind(256)]
+#[kani::stub(Hn, hn_ff)]
+#[kani::stub(Hm, hm_lean)]
+#[kani::stub(Hnx, hnx_lean)]
+#[kani::stub(honest, honest_any)]
+#[kani::stub(is_native, is_native_no)]
+#[kani::stub(ref_chain, ref_chain_fast)]
+fn verif_lms_verify_ref_cff() {
+    verify_vs_ref();
+}
+
+#[kani::proof]
+#[kani::unwind(256)]
 #[kani::stub(Hn, hn_hi)]
 #[kani::stub(Hm, hm_lean)]
 #[kani::stub(Hnx, hnx_lean)]
 #[kani::stub(honest, honest_any)]
 #[kani::stub(is_native, is_native_no)]
+#[kani::stub(ref_chain, ref_chain_fast)]
 fn verif_lms_verify_ref_q1() {
     verify_vs_ref();
 }
 
 #[kani::proof]
 #[kani::unwind(256)]
-#[kani::stub(Hn, hn_full)]
+#[kani::stub(Hn, hn_free)]
 #[kani::stub(Hm, hm_lean)]
 #[kani::stub(Hnx, hnx_lean)]
 #[kani::stub(honest, honest_any)]
 #[kani::stub(is_native, is_native_no)]
-fn verif_lms_verify_ref_full() {
+#[kani::stub(ref_chain, ref_chain_fast)]
+fn verif_lms_verify_ref_free() {
     verify_vs_ref();
 }
 
@@ -734,14 +880,7 @@ fn len_case<const L: usize>(pk: PublicKey, sig: &[u8; lms_siglen], fill: u8, msg
     assert!(!pk.verify(&buf, msg));
 }
 
-#[kani::proof]
-#[kani::unwind(256)]
-#[kani::stub(Hn, hn_ff)]
-#[kani::stub(Hm, hm_lean)]
-#[kani::stub(Hnx, hnx_lean)]
-#[kani::stub(honest, honest_any)]
-#[kani::stub(is_native, is_native_no)]
-fn verif_lms_verify_reject() {
+fn verify_reject_body() {
     let id: [u8; 16] = kani::any();
     let seed: [u8; m] = kani::any();
     let q: u32 = kani::any();
@@ -786,4 +925,31 @@ fn verif_lms_verify_reject() {
     kani::cover!(which == 1 && word == (EXP_OTS_TYPE ^ 0x0100_0000));
     kani::cover!(which == 1 && word == (EXP_OTS_TYPE ^ 1));
     kani::cover!(which == 2 && word == (EXP_LMS_TYPE ^ 0x0001_0000));
+}
+
+// Shallow variant: on a correct tree every rejection happens before any loop of
+// verify / ots_verify is reached, so unwinding 3 suffices and the unwinding
+// assertions prove it.  If they fail (the rejected input gets past the checks)
+// the driver escalates to the deep twin, which unwinds the Winternitz chains
+// fully and yields a replayable counterexample.
+#[kani::proof]
+#[kani::unwind(3)]
+#[kani::stub(Hn, hn_ff)]
+#[kani::stub(Hm, hm_lean)]
+#[kani::stub(Hnx, hnx_lean)]
+#[kani::stub(honest, honest_any)]
+#[kani::stub(is_native, is_native_no)]
+fn verif_lms_verify_reject_shallow() {
+    verify_reject_body();
+}
+
+#[kani::proof]
+#[kani::unwind(256)]
+#[kani::stub(Hn, hn_ff)]
+#[kani::stub(Hm, hm_lean)]
+#[kani::stub(Hnx, hnx_lean)]
+#[kani::stub(honest, honest_any)]
+#[kani::stub(is_native, is_native_no)]
+fn verif_lms_verify_reject_deep() {
+    verify_reject_body();
 }
